@@ -586,34 +586,58 @@ theorem foldedText_append_empties (ch : Chomp) (ls : List Str) (j : Nat) (h : ch
     congr 1
     exact chompText_notKeep ch _ _ _ hk
 
-/-- The header the renderer writes is read back. -/
-theorem parseBsHeader_rendered (f : Bool) (ch : Chomp) (ind : Nat) (ex : Bool) (h1 : 1 ≤ ind) (h9 : ind ≤ 9) :
-    parseBsHeader f ((if ex then natDigits 10 ind else []) ++ chompChar ch) =
+/-- The text of a trailing comment (or nothing). -/
+def TrailOk (T : Str) : Prop := T = [] ∨ ∃ c, T = ' ' :: '#' :: c
+
+theorem trailOk_trailText (t : Option Str) : TrailOk (trailText t) := by
+  cases t with
+  | none => exact Or.inl rfl
+  | some c => exact Or.inr ⟨c, rfl⟩
+
+theorem restOk_trail (T : Str) (h : TrailOk T) : restOk T = true := by
+  rcases h with rfl | ⟨c, rfl⟩
+  · rfl
+  · simp [restOk, isBlankOrComment, dropSpaces, List.dropWhile_cons]
+
+/-- The header the renderer writes (with or without a trailing comment) is read back. -/
+theorem parseBsHeader_rendered (f : Bool) (ch : Chomp) (ind : Nat) (ex : Bool) (h1 : 1 ≤ ind) (h9 : ind ≤ 9)
+    (T : Str) (hT : TrailOk T) :
+    parseBsHeader f ((if ex then natDigits 10 ind else []) ++ chompChar ch ++ T) =
       .ok ⟨f, ch, if ex then some ind else none⟩ := by
-  cases ex with
-  | false => cases ch <;> rfl
-  | true =>
-    have : ind = 1 ∨ ind = 2 ∨ ind = 3 ∨ ind = 4 ∨ ind = 5 ∨ ind = 6 ∨ ind = 7 ∨ ind = 8 ∨ ind = 9 := by omega
-    rcases this with rfl | rfl | rfl | rfl | rfl | rfl | rfl | rfl | rfl <;> cases ch <;> rfl
+  rcases hT with rfl | ⟨cm, rfl⟩
+  · cases ex with
+    | false => cases ch <;> rfl
+    | true =>
+      have : ind = 1 ∨ ind = 2 ∨ ind = 3 ∨ ind = 4 ∨ ind = 5 ∨ ind = 6 ∨ ind = 7 ∨ ind = 8 ∨ ind = 9 := by omega
+      rcases this with rfl | rfl | rfl | rfl | rfl | rfl | rfl | rfl | rfl <;> cases ch <;> rfl
+  · cases ex with
+    | false => cases ch <;> rfl
+    | true =>
+      have : ind = 1 ∨ ind = 2 ∨ ind = 3 ∨ ind = 4 ∨ ind = 5 ∨ ind = 6 ∨ ind = 7 ∨ ind = 8 ∨ ind = 9 := by omega
+      rcases this with rfl | rfl | rfl | rfl | rfl | rfl | rfl | rfl | rfl <;> cases ch <;> rfl
 
 
-/-- A block-scalar header after an indicator. -/
+/-- A block-scalar header (with or without a trailing comment) after an indicator. -/
 theorem parseAfter_bs (f g col pn : Nat) (cOk sSame : Bool) (folded : Bool) (ch : Chomp) (ind : Nat) (ex : Bool)
-    (h1 : 1 ≤ ind) (h9 : ind ≤ 9) (ls : List Line) :
-    parseAfter (f + 1) (spaces (g + 1) ++ (if folded then '>' else '|') :: ((if ex then natDigits 10 ind else []) ++ chompChar ch))
+    (h1 : 1 ≤ ind) (h9 : ind ≤ 9) (T : Str) (hT : TrailOk T) (ls : List Line) :
+    parseAfter (f + 1) (spaces (g + 1) ++ (if folded then '>' else '|') :: ((if ex then natDigits 10 ind else []) ++ chompChar ch) ++ T)
         col pn cOk sSame ls
       = (readBlockScalar ⟨folded, ch, if ex then some ind else none⟩ pn ls).map fun (s, r) => (.scalar false s, r) := by
-  have hh := parseBsHeader_rendered folded ch ind ex h1 h9
+  have hh := parseBsHeader_rendered folded ch ind ex h1 h9 T hT
   cases folded with
   | false =>
-    have hds : dropSpaces (spaces (g + 1) ++ '|' :: ((if ex then natDigits 10 ind else []) ++ chompChar ch))
-        = '|' :: ((if ex then natDigits 10 ind else []) ++ chompChar ch) := dropSpaces_spaces (g + 1) '|' _ (by decide)
+    have hds : dropSpaces (spaces (g + 1) ++ '|' :: ((if ex then natDigits 10 ind else []) ++ chompChar ch) ++ T)
+        = '|' :: ((if ex then natDigits 10 ind else []) ++ chompChar ch ++ T) := by
+      have := dropSpaces_spaces (g + 1) '|' (((if ex then natDigits 10 ind else []) ++ chompChar ch) ++ T) (by decide)
+      simpa [List.append_assoc] using this
     rw [parseAfter]
     simp only [Bool.false_eq_true, if_false, hds, List.head?_cons, show (some '|' == some '\t') = false by decide,
       List.isEmpty_cons, show (some '|' == some '#') = false by decide, Bool.false_and, Bool.or_self, hh]
   | true =>
-    have hds : dropSpaces (spaces (g + 1) ++ '>' :: ((if ex then natDigits 10 ind else []) ++ chompChar ch))
-        = '>' :: ((if ex then natDigits 10 ind else []) ++ chompChar ch) := dropSpaces_spaces (g + 1) '>' _ (by decide)
+    have hds : dropSpaces (spaces (g + 1) ++ '>' :: ((if ex then natDigits 10 ind else []) ++ chompChar ch) ++ T)
+        = '>' :: ((if ex then natDigits 10 ind else []) ++ chompChar ch ++ T) := by
+      have := dropSpaces_spaces (g + 1) '>' (((if ex then natDigits 10 ind else []) ++ chompChar ch) ++ T) (by decide)
+      simpa [List.append_assoc] using this
     rw [parseAfter]
     simp only [if_true, hds, List.head?_cons, show (some '>' == some '\t') = false by decide,
       List.isEmpty_cons, show (some '>' == some '#') = false by decide, Bool.false_and, Bool.or_self, hh,
@@ -751,14 +775,15 @@ theorem body_lines_ok (ch : Chomp) (s : Str) (hlines : (splitNl s).all bsLineOk 
 /-- A literal block scalar after its indicator. -/
 theorem after_literal (f g col pn e : Nat) (cOk sSame : Bool) (root : Bool) (s : Str) (ch : Chomp) (ind : Nat) (ex : Bool)
     (hpn : pn = if root then 0 else e + 1) (he : root = true → e = 0)
-    (h : strOk false root s (.literal ch ind ex) = true) (rest : List Line) (ht : Tail e (ch == .keep) rest) :
-    parseAfter (f + 1) (spaces (g + 1) ++ '|' :: ((if ex then natDigits 10 ind else []) ++ chompChar ch)) col pn cOk sSame
+    (h : strOk false root s (.literal ch ind ex) = true) (rest : List Line) (ht : Tail e (ch == .keep) rest)
+    (T : Str) (hT : TrailOk T) :
+    parseAfter (f + 1) (spaces (g + 1) ++ '|' :: ((if ex then natDigits 10 ind else []) ++ chompChar ch) ++ T) col pn cOk sSame
         (bsLines (pn + ind - 1) (blockBodyLines false [] ch s) ++ rest)
       = .ok (.scalar false s, rest.dropWhile blankL) := by
   simp only [strOk, Bool.not_false, Bool.true_and, Bool.and_eq_true, decide_eq_true_eq] at h
   obtain ⟨⟨⟨⟨⟨hind, h9⟩, hlines⟩, hch⟩, hex⟩, hroot⟩ := h
   have h1 : 1 ≤ ind := by cases root <;> simp at hind <;> omega
-  have hpa := parseAfter_bs f g col pn cOk sSame false ch ind ex h1 h9
+  have hpa := parseAfter_bs f g col pn cOk sSame false ch ind ex h1 h9 T hT
     (bsLines (pn + ind - 1) (blockBodyLines false [] ch s) ++ rest)
   simp only [Bool.false_eq_true, if_false] at hpa
   rw [hpa]
@@ -1802,14 +1827,15 @@ theorem folded_lines_ok (folds : List Nat) (ch : Chomp) (s : Str)
 /-- A folded block scalar after its indicator (not at the document root). -/
 theorem after_folded (f g col pn e : Nat) (cOk sSame : Bool) (s : Str) (ch : Chomp) (ind : Nat) (ex : Bool) (folds : List Nat)
     (hpn : pn = e + 1)
-    (h : strOk false false s (.folded ch ind ex folds) = true) (rest : List Line) (ht : Tail e (ch == .keep) rest) :
-    parseAfter (f + 1) (spaces (g + 1) ++ '>' :: ((if ex then natDigits 10 ind else []) ++ chompChar ch)) col pn cOk sSame
+    (h : strOk false false s (.folded ch ind ex folds) = true) (rest : List Line) (ht : Tail e (ch == .keep) rest)
+    (T : Str) (hT : TrailOk T) :
+    parseAfter (f + 1) (spaces (g + 1) ++ '>' :: ((if ex then natDigits 10 ind else []) ++ chompChar ch) ++ T) col pn cOk sSame
         (bsLines (pn + ind - 1) (blockBodyLines true folds ch s) ++ rest)
       = .ok (.scalar false s, rest.dropWhile blankL) := by
   simp only [strOk, Bool.not_false, Bool.true_and, Bool.and_eq_true, decide_eq_true_eq, Bool.false_eq_true, if_false,
     bne_iff_ne, ne_eq] at h
   obtain ⟨⟨⟨⟨⟨⟨⟨⟨⟨hind, h9⟩, hlines⟩, hch⟩, hex⟩, hroot⟩, hsp⟩, hhead⟩, hf⟩, _⟩ := h
-  have hpa := parseAfter_bs f g col pn cOk sSame true ch ind ex hind h9
+  have hpa := parseAfter_bs f g col pn cOk sSame true ch ind ex hind h9 T hT
     (bsLines (pn + ind - 1) (blockBodyLines true folds ch s) ++ rest)
   simp only [if_true] at hpa
   rw [hpa]
